@@ -752,3 +752,112 @@ Proof.
        rewrite (IH c _ Hp1 Hc), (IHr Hp2 Hr); reflexivity).
   - cbn [xhas_pushed] in Hp. discriminate Hp.
 Qed.
+
+(* ------------------------------------------------------------------ extension round 4 (b): fill <= stroke <= layer *)
+Lemma inflate_contains b r : 0 <= r -> contains (inflate b r) b.
+Proof. intros H. unfold contains, inflate, mkbox. cbn. repeat split; lra. Qed.
+Lemma inflate_mono b c r s : contains b c -> r <= s -> contains (inflate b s) (inflate c r).
+Proof. unfold contains, inflate, mkbox. cbn. intros (?&?&?&?) ?. repeat split; lra. Qed.
+Lemma stroke_radius_ge_half w ml join cap : 0 <= w -> w / 2 <= stroke_radius w ml join cap.
+Proof.
+  intros Hw. unfold stroke_radius.
+  assert (H1 : 1 <= Qmax (Qmax 1 (match join with 0%N => ml | 1%N => ml + 1 | _ => 1 end)) (match cap with 2%N => 3 # 2 | _ => 1 end)).
+  { eapply Qle_trans; [|apply Q.le_max_l]. apply Q.le_max_l. }
+  assert (H0 : 0 <= w / 2) by (unfold Qdiv; change (/ 2) with (1 # 2); lra).
+  set (m := Qmax _ _) in *. clearbody m. nra.
+Qed.
+
+(* a leaf whose fill box lies in its stroke box: every box of the parent group that is built from stroke boxes - the layer
+   box when the group has no filters - contains the leaf's FILL box too (fill <= stroke <= layer) *)
+Theorem fill_in_stroke_in_layer abs_ts prev cs g b :
+  calculate_bounding_boxes abs_ts [] prev cs = (g, true) ->
+  (forall c, In c (live cs) -> child_valid c = true) ->
+  In (CLeaf b) cs -> contains (lb_stroke b) (lb_obj b) ->
+  contains (gb_layer g) (lb_stroke b) /\ contains (gb_layer g) (lb_obj b) /\ contains (gb_stroke g) (lb_obj b).
+Proof.
+  intros Hc Hv Hin Hfs.
+  assert (Hl : In (CLeaf b) (live cs)) by (unfold live; apply filter_In; split; [exact Hin|reflexivity]).
+  assert (Hne : live cs <> []) by (intros E; rewrite E in Hl; destruct Hl).
+  destruct (parent_contains_children _ _ _ _ _ _ Hc Hne Hv) as [H4 Hok].
+  destruct (H4 _ Hl) as (_ & _ & Hs & _). destruct (Hok eq_refl) as [Hlay _].
+  change (filters_bounding_box []) with (@None box) in Hlay.
+  assert (H1 : contains (gb_layer g) (lb_stroke b)) by (apply (Hlay (CLeaf b) (lb_stroke b) Hl); reflexivity).
+  split; [exact H1|]. split; [eapply contains_trans; eassumption|].
+  cbn [c_stroke] in Hs. eapply contains_trans; eassumption.
+Qed.
+
+(* the layer box of a group without filters is EXACTLY the union of its live children's layer boxes: besides containing each
+   (parent_contains_children), every side is attained by some child *)
+Lemma fold_opt_attained {A} (f : A -> option box) (sel : box -> Q) (l : list A)
+  (Hsel : forall b r u, expand (Some b) r = Some u -> sel u == sel b \/ sel u == sel r) :
+  forall a u, fold_left (fun a c => match f c with Some r => expand a r | None => a end) l a = Some u ->
+  (exists b, a = Some b /\ sel u == sel b) \/ (exists c r, In c l /\ f c = Some r /\ sel u == sel r).
+Proof.
+  induction l as [|x l IH]; intros a u H.
+  - cbn in H. left. exists u. split; [exact H|reflexivity].
+  - cbn [fold_left] in H. destruct (f x) as [r|] eqn:Ef.
+    + destruct (IH _ _ H) as [(b & Hb & Hu)|(c & r' & Hin & Hf & Hu)].
+      * destruct a as [b0|].
+        -- destruct (Hsel b0 r b Hb) as [E|E].
+           ++ left. exists b0. split; [reflexivity|]. rewrite Hu. exact E.
+           ++ right. exists x, r. split; [left; reflexivity|]. split; [exact Ef|]. rewrite Hu. exact E.
+        -- cbn in Hb. injection Hb as <-. right. exists x, r. split; [left; reflexivity|]. split; [exact Ef|exact Hu].
+      * right. exists c, r'. split; [right; exact Hin|]. split; assumption.
+    + destruct (IH _ _ H) as [Hl|(c & r' & Hin & Hf & Hu)]; [left; exact Hl|].
+      right. exists c, r'. split; [right; exact Hin|]. split; assumption.
+Qed.
+Lemma expand_sel_x0 b r u : expand (Some b) r = Some u -> bx0 u == bx0 b \/ bx0 u == bx0 r.
+Proof. cbn. intros H. injection H as <-. cbn. destruct (Q.min_dec (bx0 b) (bx0 r)) as [E|E]; rewrite E; [left|right]; reflexivity. Qed.
+Lemma expand_sel_y0 b r u : expand (Some b) r = Some u -> by0 u == by0 b \/ by0 u == by0 r.
+Proof. cbn. intros H. injection H as <-. cbn. destruct (Q.min_dec (by0 b) (by0 r)) as [E|E]; rewrite E; [left|right]; reflexivity. Qed.
+Lemma expand_sel_x1 b r u : expand (Some b) r = Some u -> bx1 u == bx1 b \/ bx1 u == bx1 r.
+Proof. cbn. intros H. injection H as <-. cbn. destruct (Q.max_dec (bx1 b) (bx1 r)) as [E|E]; rewrite E; [left|right]; reflexivity. Qed.
+Lemma expand_sel_y1 b r u : expand (Some b) r = Some u -> by1 u == by1 b \/ by1 u == by1 r.
+Proof. cbn. intros H. injection H as <-. cbn. destruct (Q.max_dec (by1 b) (by1 r)) as [E|E]; rewrite E; [left|right]; reflexivity. Qed.
+
+Theorem layer_box_is_union abs_ts prev cs g :
+  calculate_bounding_boxes abs_ts [] prev cs = (g, true) ->
+  to_nonzero (union_opt c_layer cs) = Some (gb_layer g) /\
+  (exists c r, In c (live cs) /\ c_layer c = Some r /\ bx0 (gb_layer g) == bx0 r) /\
+  (exists c r, In c (live cs) /\ c_layer c = Some r /\ by0 (gb_layer g) == by0 r) /\
+  (exists c r, In c (live cs) /\ c_layer c = Some r /\ bx1 (gb_layer g) == bx1 r) /\
+  (exists c r, In c (live cs) /\ c_layer c = Some r /\ by1 (gb_layer g) == by1 r).
+Proof.
+  intros H.
+  assert (Hu : to_nonzero (union_opt c_layer cs) = Some (gb_layer g)).
+  { unfold calculate_bounding_boxes in H. change (filters_bounding_box []) with (@None box) in H.
+    repeat match type of H with
+    | context [match ?x with _ => _ end] => destruct x eqn:?; cbn [negb fst snd] in H; try discriminate
+    end; injection H as <-; try reflexivity; cbn; try assumption; try congruence. }
+  split; [exact Hu|]. apply to_nonzero_some in Hu. unfold union_opt in Hu.
+  repeat split.
+  - destruct (fold_opt_attained c_layer bx0 (live cs) expand_sel_x0 _ _ Hu) as [(b & Hb & _)|Hx]; [discriminate|exact Hx].
+  - destruct (fold_opt_attained c_layer by0 (live cs) expand_sel_y0 _ _ Hu) as [(b & Hb & _)|Hx]; [discriminate|exact Hx].
+  - destruct (fold_opt_attained c_layer bx1 (live cs) expand_sel_x1 _ _ Hu) as [(b & Hb & _)|Hx]; [discriminate|exact Hx].
+  - destruct (fold_opt_attained c_layer by1 (live cs) expand_sel_y1 _ _ Hu) as [(b & Hb & _)|Hx]; [discriminate|exact Hx].
+Qed.
+
+(* ------------------------------------------------------------------ round 5: the model's wrong values are the formulas of the class *)
+Lemma Qcloseb_refl tol a : 0 <= tol -> Qcloseb tol a a = true.
+Proof.
+  intros H. unfold Qcloseb. apply Qleb_true. assert (E : a - a == 0) by ring. 
+  unfold Qabsb. destruct (Qleb 0 (a - a)) eqn:E0.
+  - rewrite E. assert (1 <= Qmax 1 (Qmax (if Qleb 0 a then a else - a) (if Qleb 0 a then a else - a))) by apply Q.le_max_l. nra.
+  - apply Qleb_false in E0. rewrite E in E0. lra.
+Qed.
+Lemma ts_closeb_refl tol a : 0 <= tol -> ts_closeb tol a a = true.
+Proof. intros H. unfold ts_closeb. rewrite !Qcloseb_refl by exact H. reflexivity. Qed.
+
+(* what `thread` gives a GK_ViaUse / GK_ClipWrap group is exactly the value the class formulas name *)
+Theorem thread_via_use_value tol pabs nts pts ch : 0 <= tol -> ts_closeb tol nts ts_identity = false ->
+  match thread pabs (TGroup GK_ViaUse nts pts ch) with
+  | AGroup t a _ => kw_via_use tol pabs t a (false, pts, nts) = true
+  | ALeaf _ => False
+  end.
+Proof. intros H Hn. cbn [thread kw_via_use]. rewrite Hn. cbn [negb andb]. apply ts_closeb_refl. exact H. Qed.
+Theorem thread_clip_wrap_value tol pabs nts pts ch : 0 <= tol -> ts_closeb tol pts ts_identity = false ->
+  match thread pabs (TGroup GK_ClipWrap nts pts ch) with
+  | AGroup t a _ => kw_clip_wrap tol pabs t a = true
+  | ALeaf _ => False
+  end.
+Proof. intros H Hn. cbn [thread]. unfold kw_clip_wrap. rewrite Hn, ts_closeb_refl by exact H. reflexivity. Qed.
